@@ -41,6 +41,9 @@ def forms(dim):
     gu, gv = ['grad', ['u'], False], ['grad', ['v'], False]
     F('laplace', 2, (None, None), [_mul(['inner', gu, gv], ['dx'])], sym=True)
     F('weighted_mass', 2, (None, None), [_mul(['field', 'f'], ['u'], ['v'], ['dx'])], fields={'f': {'shape': [], 'physical': False, 'updatable': True}}, sym=True)
+    # an updatable field used at two derivative orders (value and gradient): two stored arrays, both must follow update()
+    F('field_two_orders', 2, (None, None), [_mul(['field', 'f'], ['u'], ['v'], ['dx']), _mul(['inner', ['grad', ['field', 'f'], True], gu], ['v'], ['dx'])],
+      fields={'f': {'shape': [], 'physical': False, 'updatable': True}})
     F('convection', 2, (None, None), [_mul(['inner', ['param', 'b'], gu], ['v'], ['dx']), _mul(['param', 'c'], ['u'], ['v'], ['dx'])], params={'b': [d], 'c': []})
     # a parameter-only subexpression that occurs twice: the compiler precomputes it into a derived constant
     kk = ['fn', 'sqrt', ['+', C(1.0), ['inner', ['param', 'b'], ['param', 'b']]]]
